@@ -92,7 +92,21 @@ def _gate_leaves_false(facts):
         a = int(m.group(2) or 1)
         b = int(m.group(3) or 1)
         return Fraction(b, a)
+    def pred_ratios(path):
+        """occupancy comparisons inside a Heap predicate such as crowded() / half_full()"""
+        h = facts.fns.get(path)
+        out = []
+        if h is not None:
+            for b2, j2, st2 in h.stmts():
+                if st2["rv"]["k"] == "bin" and st2["rv"]["op"] in ("Ge", "Gt"):
+                    r2 = occupancy_ratio(norm("(%s %s %s)" % (st2["rv"]["op"], shapes.shape(h, st2["rv"]["a"], 4), shapes.shape(h, st2["rv"]["b"], 4))))
+                    if r2 is not None:
+                        out.append(r2)
+        return out
     gate_ratios = [r for r in (occupancy_ratio(c) for c in gate_conds) if r is not None]
+    for sub in gate_subs:
+        if sub.startswith(HEAP):
+            gate_ratios += pred_ratios(sub)
     agree = False
     for bb, t in grows:
         for g in shapes.guard_shapes(gc, bb, None, 5):
@@ -108,6 +122,12 @@ def _gate_leaves_false(facts):
             m = re.match(r"([A-Za-z0-9_:<>]+)\(a1\)$", body)
             if m and any(short_path(x) == m.group(1) for x in gate_subs):
                 agree = True
+            if m and gate_ratios:
+                for x in facts.fns:
+                    if short_path(x) == m.group(1) and x.startswith(HEAP) and x != gate[0]:
+                        rs = pred_ratios(x)
+                        if rs and all(rr <= g for rr in rs for g in gate_ratios):
+                            agree = True
     if not agree:
         return False, "the growth decision after the sweep is not the gate's occupancy test: at an occupancy the gate accepts and the growth test refuses, a collection that frees nothing leaves the gate true"
     # the non-occupancy fields the gate reads are reset by the sweep
